@@ -305,8 +305,21 @@ pub fn gen_key(rng: &mut Rng) -> String {
     }
     s
 }
+/// a plain decimal (no exponent): `int_digits` integer digits, then `zeros` zeros and `sig` random
+/// digits after the point — small magnitudes spelled out in full
+pub fn plain_decimal(rng: &mut Rng, int_digits: usize, zeros: usize, sig: usize) -> String {
+    let mut s = String::new();
+    if rng.chance(1, 3) { s.push('-'); }
+    if int_digits == 0 { s.push('0'); } else { s.push(char::from(b'1' + rng.below(9) as u8)); for _ in 1..int_digits { s.push(char::from(b'0' + rng.below(10) as u8)); } }
+    s.push('.');
+    for _ in 0..zeros { s.push('0'); }
+    for _ in 0..sig { s.push(char::from(b'0' + rng.below(10) as u8)); }
+    if zeros + sig == 0 { s.push('0'); }
+    s
+}
 pub fn gen_number(rng: &mut Rng) -> String {
-    match rng.below(10) {
+    match rng.below(11) {
+        10 => { let (i, z, g) = (rng.below(4) as usize, rng.below(30) as usize, rng.range(1, 18) as usize); plain_decimal(rng, i, z, g) }
         0 => (*rng.pick(&["0", "-0", "0.0", "-0.0e5", "1e21", "1e20", "999999999999999900000", "1e-6", "1e-7", "0.000001", "0.0000001", "123456789012345680000", "1.7976931348623157e308", "5e-324", "2.2250738585072014e-308", "4.9e-324", "333333333.33333329", "1E30", "4.50", "2e-3", "0.000000000000000000000000001", "9007199254740993", "9007199254740992", "0.1", "0.30000000000000004", "4.14673952822385274921803532e91", "1e400", "-1e400"])).to_string(),
         1 | 2 => { // long decimals
             let mut s = String::new();
@@ -390,6 +403,29 @@ pub fn gen(out: &mut Out, thorough: bool) {
         l(request_for(&Value::Object(o)), out);
     } } }
     out.exhaustive.push("all ordered pairs of 11 boundary characters (with 3 suffixes) as the two keys of an object".into());
+    // the same divergence behind a shared prefix of EVERY length up to 40 UTF-16 units (a comparison
+    // that looks at a bounded window, at chunks or at a prefix hash first is decided there), the
+    // prefix made of one-unit characters, of surrogate pairs or of both
+    let kd = ['\u{d7ff}', '\u{e000}', '\u{ffff}', '\u{10000}', '\u{10ffff}', 'a'];
+    for plen in 0..=40usize {
+        for pk in 0..3 {
+            let mut prefix = String::new();
+            let mut units = 0;
+            while units < plen {
+                let astral = match pk { 0 => false, 1 => plen - units >= 2, _ => plen - units >= 2 && units % 3 == 0 };
+                if astral { prefix.push('\u{1f600}'); units += 2; } else { prefix.push(if pk == 2 { '\u{fb33}' } else { 'p' }); units += 1; }
+            }
+            for (i, a) in kd.iter().enumerate() { for b in kd.iter().skip(i + 1) {
+                let mut o = Object::new();
+                let (k1, k2) = (format!("{}{}x", prefix, a), format!("{}{}", prefix, b));
+                if (plen + i) % 2 == 0 { o.push(k1.as_str().into(), Value::Null); o.push(k2.as_str().into(), Value::Boolean(true)); } else { o.push(k2.as_str().into(), Value::Boolean(true)); o.push(k1.as_str().into(), Value::Null); }
+                if plen % 4 == 1 { o.push(prefix.as_str().into(), Value::Boolean(false)); }
+                l(request_for(&Value::Object(o)), out);
+                out.count("long_prefix_key_pairs");
+            } }
+        }
+    }
+    out.exhaustive.push("all pairs of 6 boundary characters behind a shared key prefix of every length 0..=40 UTF-16 units (3 prefix compositions)".into());
     // generated I-JSON values
     let m = if thorough { 300000 } else { 5000 };
     for i in 0..m {
